@@ -36,6 +36,73 @@ HAND = [
 ]
 
 
+BLOCKS = [("{ %s }", "block"), ("if true { %s }", "if"), ("if false { } else { %s }", "else"), ("let wi = 0; while wi < 1 { %s wi = wi + 1; }", "while"),
+          ("loop { %s break; }", "loop"), ("match 1 { 1 => { %s }, _ => { } }", "match-arm"), ("{ { %s } }", "nested-block")]
+
+
+def escape_scenarios(rng, n):
+    """Functions created inside a block that outlive it: the block's bindings stay theirs however many
+    bindings are made after the block. -> [(text, expected observations, shape)]"""
+    out = []
+    for t in range(n):
+        nblocks = rng.randint(1, 3)
+        after = rng.randint(0, 4)
+        inside_fn = rng.random() < 0.4
+        kinds = []
+        pre = []
+        body = []
+        exp_calls = []   # (holder index, values per call)
+        vals = {}
+        for b in range(nblocks):
+            tmpl, kind = rng.choice(BLOCKS)
+            if inside_fn and kind == "while":
+                tmpl, kind = BLOCKS[0]
+            kinds.append(kind)
+            a0, b0 = rng.randint(1, 90) * 100, rng.randint(1, 9)
+            extra = rng.randint(0, 2)      # further bindings in the block before the captured ones
+            inner = "".join("let pad%d_%d = %d; " % (b, e, -e - 1) for e in range(extra))
+            inner += "let a%d = %d; let b%d = %d; h%d = fn() { a%d = a%d + 1; a%d + b%d };" % (b, a0, b, b0, b, b, b, b, b)
+            if rng.random() < 0.5:
+                inner += " a%d = a%d + 50;" % (b, b)      # after the function was created
+                vals[b] = (a0, b0, 50)
+            else:
+                vals[b] = (a0, b0, 0)
+            pre.append("let h%d = null;" % b)
+            body.append(tmpl % inner)
+        lets = ["let n%d = %d;" % (k, 7000 + k) for k in range(after)]
+        ncalls = [rng.randint(1, 3) for _ in range(nblocks)]
+        exp = []
+        if not inside_fn:
+            # top level: the block's bindings are global bindings, read and written by reference
+            text = " ".join(pre + body + lets)
+            order = [b for b in range(nblocks) for _ in range(ncalls[b])]
+            rng.shuffle(order)
+            cur = {b: vals[b][0] + vals[b][2] for b in range(nblocks)}
+            for b in order:
+                text += " push(__o, h%d());" % b
+                cur[b] += 1
+                exp.append(str(cur[b] + vals[b][1]))
+            for k in range(after):
+                text += " push(__o, n%d);" % k
+                exp.append(str(7000 + k))
+        else:
+            # inside a function: locals are captured by value when the closure is created; its writes go to its own copy
+            ret = "return [" + ", ".join(["h%d" % b for b in range(nblocks)] + ["n%d" % k for k in range(after)]) + "];"
+            text = "fn mk() { " + " ".join(pre + body + lets) + " " + ret + " } let r = mk();"
+            order = [b for b in range(nblocks) for _ in range(ncalls[b])]
+            rng.shuffle(order)
+            cur = {b: vals[b][0] for b in range(nblocks)}
+            for b in order:
+                text += " push(__o, r[%d]());" % b
+                cur[b] += 1
+                exp.append(str(cur[b] + vals[b][1]))
+            for k in range(after):
+                text += " push(__o, r[%d]);" % (nblocks + k)
+                exp.append(str(7000 + k))
+        out.append((text, exp, ("escape", "fn" if inside_fn else "top", tuple(kinds), after > 0)))
+    return out
+
+
 def run(chk):
     rng = chk.rng
     quick = chk.tier == "quick"
@@ -72,6 +139,9 @@ def run(chk):
     cases = [Case("p%d" % i, text, {"globals": "__o", "final": 1, "steps": 400000}) for i, (_, _, text, _) in enumerate(jobs)]
     for i, (text, exp) in enumerate(HAND):
         cases.append(Case("h%d" % i, gen.PRELUDE + text, {"globals": "__o", "steps": 100000}))
+    esc = escape_scenarios(rng, 400 if quick else 20000)
+    for i, (text, exp, shape) in enumerate(esc):
+        cases.append(Case("e%d" % i, gen.PRELUDE + text, {"globals": "__o", "steps": 100000}))
     res = core.run_cases(cases)
     for i, (cls, prog, text, ev) in enumerate(jobs):
         r = res.get("p%d" % i)
@@ -107,5 +177,17 @@ def run(chk):
             if oc != "ok" or got != exp:
                 chk.violation("hand|%d" % i, "%s: expected %s, observed %s (%s %s)" % (text, exp, got, oc, r.get("rt") or r.get("diag") or ""),
                               {"src": text, "expected": exp, "observed": got, "outcome": oc})
+    for i, (text, exp, shape) in enumerate(esc):
+        r = res.get("e%d" % i)
+        if r is None:
+            chk.inconc("missing result")
+            continue
+        oc = r.get("outcome")
+        chk.observed(shape)
+        got = [show(x) for x in canon_dump(r["globals"]["__o"])[1]] if "globals" in r else None
+        if oc != "ok" or got != exp:
+            chk.violation("escape|%s|%s|later-bindings=%s" % (shape[1], "+".join(sorted(set(shape[2]))), shape[3]),
+                          "a function created in a block and called after the block ended: expected %s, observed %s (%s %s)" % (
+                              exp, got, oc, r.get("rt") or r.get("diag") or ""), {"src": text, "expected": exp, "observed": got, "outcome": oc})
     for k, v in unspec.items():
         chk.count("discarded: " + k, v)
